@@ -929,7 +929,7 @@ _pretty_exp_re = re.compile(r"(⁻?[⁰¹²³⁴⁵⁶⁷⁸⁹]+(?:\.[⁰¹²³
 
 def string_preprocessor(input_string: str) -> str:
     input_string = input_string.replace(",", "")
-    input_string = input_string.replace(" per ", "/")
+    input_string = re.sub(r"\s+per\s+", "/", input_string)
 
     for a, b in _subs_re:
         input_string = a.sub(b, input_string)
